@@ -118,7 +118,9 @@ def roundtrip(repo, tier, violations):
       viol(kind='roundtrip-crash', what='%s: %s: %s' % (name, type(e).__name__, str(e)[:200]), stub=name)
 
   for i, src in enumerate(STUBS):
-    check('stub%d' % i, lambda src=src, i=i: serialize_ast.SourceToExportableAst('m%d' % i, src, loader))
+    # the same stub exported as a plain module, as a sub-module of a package and as a package's __init__ (renamed on export)
+    for mn in ('m%d' % i, 'pkg.m%d' % i, 'pkg%d.__init__' % i):
+      check('stub%d as %s' % (i, mn), lambda src=src, mn=mn: serialize_ast.SourceToExportableAst(mn, src, loader))
   progs = corpus.load(repo, stride=25 if tier == 'quick' else 4)
   for name, src in progs:
     try:
@@ -126,6 +128,7 @@ def roundtrip(repo, tier, violations):
     except Exception:  # pylint: disable=broad-except
       continue
     check(name, lambda ret=ret: serialize_ast.PrepareForExport('m', ret.ast, loader))
+    check(name + ' as package', lambda ret=ret: serialize_ast.PrepareForExport('genpkg.__init__', ret.ast, loader))
     if len(violations) >= 10:
       break
   return [dict(function='pickle_utils.Serialize / DecodeAst / Encode, serialize_ast.SerializeAst (msgspec round trip)',
